@@ -6,6 +6,8 @@
 (*  {"ev":"Reset","scn":..}                                                *)
 (*  {"ev":"Call","s":snap,"call":name[,"res":..],"obs":{light}}  the       *)
 (*        handler of s made storage call `name` (or returned)              *)
+(*  {"ev":"Blocked","s":snap}  the handler of s had to wait for the       *)
+(*        topology lock (ends the recorded execution)                      *)
 (*  {"ev":"Crash"}                                                         *)
 (*  {"ev":"Restart","obs":{setup,marker,topo,head,body,final,invalid,..}}  *)
 (*  {"ev":"End",...}                                                       *)
@@ -20,11 +22,11 @@ EXTENDS TraceLib, Integers, FiniteSets
 
 CONSTANTS Mode, SnapC, DefC, ChainC, Head0C, KnownC
 
-VARIABLES l, ghost, nodeop, lock, body, head, refsOK, topo, marker, pc, abort, tries, complete, up, broken, crashes, fresh, startedInTopo,
+VARIABLES l, ghost, nodeop, lock, body, head, refsOK, topo, marker, pc, abort, tries, topoLock, complete, up, broken, crashes, fresh, startedInTopo,
           ord    \* [last, ok]: topology position of the last snapshot write and whether commit order = position order so far
 
 N == INSTANCE Node WITH Snap <- SnapC, Def <- DefC, Chain <- ChainC, Head0 <- Head0C,
-                        MaxCrash <- 1000, MaxTries <- 1000, Known <- KnownC
+                        MaxCrash <- 1000, MaxTries <- 1000, Known <- KnownC, LockedMarker <- TRUE
 
 D(c, k, nr, r, af) == [chain |-> c, kind |-> k, newRound |-> nr, round |-> r, after |-> af, closes |-> {}, ext |-> <<"-", 0>>]
 DX(c, k, nr, r, af, cl, ex) == [chain |-> c, kind |-> k, newRound |-> nr, round |-> r, after |-> af, closes |-> cl, ext |-> ex]
@@ -69,7 +71,7 @@ KnownNone == {}
 Known21 == {"C21-1"}
 Known22 == {"C22-1"}
 
-nvars == <<ghost, nodeop, lock, body, head, refsOK, topo, marker, pc, abort, tries, complete, up, broken, crashes, fresh, startedInTopo>>
+nvars == <<ghost, nodeop, lock, body, head, refsOK, topo, marker, pc, abort, tries, topoLock, complete, up, broken, crashes, fresh, startedInTopo>>
 
 Init == l = 1 /\ N!Init /\ ord = [last |-> 0, ok |-> TRUE]
 
@@ -80,7 +82,7 @@ Reset ==
     /\ IsEvent("Reset")
     /\ ghost' = {} /\ nodeop' = {} /\ lock' = {} /\ body' = {}
     /\ head' = Head0C /\ topo' = <<>> /\ marker' = "G"
-    /\ refsOK' = [c \in ChainC |-> TRUE] /\ abort' = {} /\ tries' = [s \in SnapC |-> 0]
+    /\ refsOK' = [c \in ChainC |-> TRUE] /\ abort' = {} /\ tries' = [s \in SnapC |-> 0] /\ topoLock' = "-"
     /\ pc' = [s \in SnapC |-> 0] /\ complete' = {}
     /\ up' = TRUE /\ broken' = FALSE /\ crashes' = 0 /\ fresh' = FALSE /\ startedInTopo' = {}
     /\ ord' = [last |-> 0, ok |-> TRUE]
@@ -151,12 +153,19 @@ Restart ==
          [] Mode = "C35"  -> Ev.obs.posok /\ UNCHANGED nvars
     /\ UNCHANGED ord
 
+\* the behaviour asked handler s to write its snapshot while another handler was inside Node.TopoWrite
+\* and the node made it wait (the recorded execution ends there)
+Blocked ==
+    /\ IsEvent("Blocked")
+    /\ (Mode = "full" => topoLock \notin {"-", Ev.s} /\ N!NextPhase(Ev.s) = 7)
+    /\ UNCHANGED nvars /\ UNCHANGED ord
+
 End ==
     /\ IsEvent("End")
     /\ (Mode = "full" => \A s \in DOMAIN Ev.rest : Ev.rest[s].res = "ok")
     /\ UNCHANGED nvars /\ UNCHANGED ord
 
-Next == Reset \/ Call \/ Crash \/ Restart \/ End
+Next == Reset \/ Call \/ Crash \/ Restart \/ Blocked \/ End
 Spec == Init /\ [][Next]_<<l, nvars, ord>>
 
 HW == HighWaterOf(l)
